@@ -115,6 +115,12 @@ def run(ctx):
                     if fr(utils.real_expand(Al)) != RE: viol('C02:real_expand:memory-layout', f'real_expand depends on the memory layout of its argument ({lname})', A, lname)
                     if m == n and not np.array_equal(utils.quaternion_to_complex_adjoint(Al), utils.quaternion_to_complex_adjoint(An)): viol('C02:adjoint:memory-layout', f'complex adjoint depends on the memory layout of its argument ({lname})', A, lname)
                 except Exception as e: viol('C02:memory-layout:raises', f'an embedding raised {type(e).__name__} for a {lname} argument: {e}', A, lname)
+        # the component-blocked embedding must not depend on the storage dtype of one plane (integer-typed real plane, fractional others)
+        try:
+            halves = [np.array(cA[0]).astype(np.int64)] + [np.array(c, dtype=float) / 2 for c in cA[1:]]
+            ref_planes = [halves[0].astype(float)] + halves[1:]
+            if fr(utils.Realp(*halves)) != fr(utils.Realp(*ref_planes)): viol('C02:Realp:storage-dtype', 'Realp depends on the storage dtype of the real plane (integer-typed plane with fractional imaginary planes)', A)
+        except Exception as e: viol('C02:Realp:storage-dtype:raises', f'Realp raised {e!r} for an integer-typed real plane', A)
         if RE != rexp_ref(A): viol('C02:real_expand:layout', 'real_expand differs from the interleaved 4x4-block definition', A, RE, rexp_ref(A))
         if RP != realp_ref(A): viol('C02:Realp:layout', 'Realp differs from the component-blocked definition', A, RP, realp_ref(A))
         if not qx.eq(RC, A): viol('C02:roundtrip', 'real_contract(real_expand(A)) != A', A, RC)
